@@ -97,6 +97,8 @@ SPECS = {
                'final': 'cs_final3', 'covers': [13]},
     'rcu_reuse': {'name': 'rcu_reuse', 'setup': 'cs_setup_min', 'threads': [(W, 'cs_w_rcu_payload'), (W, 'cs_w_store_reuse')],
                   'final': 'cs_final_rcu_reuse', 'covers': [13]},
+    'ser_conc': {'name': 'ser_conc', 'setup': 'cs_setup1', 'threads': [(W, 'c20_r_serialize'), (W, 'cs_w_store1')],
+                 'final': 'cs_final1', 'covers': [13]},
     # --- two containers: writer of B walks the node of a reader of A which is on the fallback path
     'iso_b': {'name': 'iso_b', 'setup': 'cs_setup2', 'threads': [('cs_fill8_t1', 'cs_r_fallback'), (W, 'cs_w_store_b3')],
               'final': 'cs_final2_release', 'covers': [13, 14]},
@@ -242,6 +244,7 @@ def c20(ctx):
     ctx.outside += ['strings, sequences, maps and nested collections as pointee values', 'RwLock strategy for Deserialize (needs Default; same generic code)']
     seq_run(ctx, 'c20_ser', features=('serde',))
     seq_run(ctx, 'c20_de', features=('serde',))
+    conc_run(ctx, SPECS['ser_conc'], features=('serde',), loop_bound=3)
 
 
 @prop('C15')
